@@ -30,7 +30,7 @@ func c17schema(pkg string) *spec.File {
 	// a request can be rejected AFTER its fields were bound (over-long payload), not only before
 	max48 := &validate.FieldRules{Type: &validate.FieldRules_String_{String_: &validate.StringRules{MaxLen: proto.Uint64(48)}}}
 	reqFields := func() []*spec.Field {
-		return []*spec.Field{spec.F("id", 1, spec.String), spec.F("payload", 2, spec.String).With(func(a *spec.Ann) { a.Rules = max48 }), spec.F("n", 3, spec.Int64), spec.F("path_a", 4, spec.String)}
+		return []*spec.Field{spec.F("id", 1, spec.String), spec.F("payload", 2, spec.String).With(func(a *spec.Ann) { a.Rules = max48 }), spec.F("n", 3, spec.Int64), spec.F("path_a", 4, spec.String), spec.F("path_b", 5, spec.String)}
 	}
 	f.Messages = []*spec.Message{
 		{Name: "EchoReq", Fields: reqFields()},
@@ -45,6 +45,9 @@ func c17schema(pkg string) *spec.File {
 			{Name: "AlphaUpdate", In: in, Out: out, HTTP: &spec.HTTP{Path: "/items/{path_a}", Verb: 3}, Headers: []spec.Header{{Name: "X-M-Update", Type: "string", Format: "uuid", Required: true}}},
 			{Name: "AlphaFetch", In: get, Out: out, HTTP: &spec.HTTP{Path: "/items/{path_a}", Verb: 1}},
 			{Name: "AlphaPatch", In: in, Out: out, HTTP: &spec.HTTP{Path: "/items/{path_a}/part", Verb: 5}},
+			// the same request message under another, larger set of path variables (and the variables named in
+			// another order than the message declares them)
+			{Name: "AlphaMove", In: in, Out: out, HTTP: &spec.HTTP{Path: "/moves/{path_b}/from/{path_a}", Verb: 3}},
 		}},
 		{Name: "BetaService", BasePath: spec.S("/beta"), Headers: []spec.Header{{Name: "X-Beta", Type: "boolean", Required: true}, {Name: "X-Span", Type: "string"}, {Name: "X-Baggage", Type: "string"}}, Methods: []*spec.Method{
 			{Name: "BetaCreate", In: in, Out: out, HTTP: &spec.HTTP{Path: "/things", Verb: 2}},
@@ -64,6 +67,7 @@ type c17call struct {
 	Payload string
 	N       int64
 	PathA   string
+	PathB   string
 	Hdr     [][2]string // per-call headers (WithHeader)
 	OmitOwn string      // required header deliberately omitted ("" = none) → expect 400
 	CallCT  string
@@ -83,6 +87,7 @@ var c17routes = []c17route{
 	{"AlphaService", "AlphaUpdate", "EchoReq", [][2]string{{"X-Alpha", "a"}, {"X-M-Update", "123e4567-e89b-12d3-a456-426614174000"}}, true, "PUT", "/alpha/items/%s"},
 	{"AlphaService", "AlphaFetch", "EchoGetReq", [][2]string{{"X-Alpha", "a"}}, true, "GET", "/alpha/items/%s"},
 	{"AlphaService", "AlphaPatch", "EchoReq", [][2]string{{"X-Alpha", "a"}}, true, "PATCH", "/alpha/items/%s/part"},
+	{"AlphaService", "AlphaMove", "EchoReq", [][2]string{{"X-Alpha", "a"}}, true, "PUT", "/alpha/moves/%[2]s/from/%[1]s"},
 	{"BetaService", "BetaCreate", "EchoReq", [][2]string{{"X-Beta", "true"}}, false, "POST", "/beta/things"},
 	{"BetaService", "BetaRemove", "EchoGetReq", [][2]string{{"X-Beta", "false"}, {"X-M-Remove", "r"}}, true, "DELETE", "/beta/things/%s"},
 }
@@ -97,6 +102,9 @@ func c17mk(rt c17route, kind, id string, i int, rnd func() int64) c17call {
 	cl := c17call{Idx: i, Kind: kind, Svc: rt.Svc, RPC: rt.RPC, ReqType: rt.ReqType, ID: id, Payload: fmt.Sprintf("p%d-%x", i, rnd()), N: rnd() - (1 << 62), Want: "ok"}
 	if rt.HasPath {
 		cl.PathA = fmt.Sprintf("seg%d", i)
+		if strings.Contains(rt.Path, "%[2]s") {
+			cl.PathB = fmt.Sprintf("dst%d", i)
+		}
 	}
 	omit := ""
 	switch kind {
@@ -131,6 +139,9 @@ func c17mk(rt c17route, kind, id string, i int, rnd func() int64) c17call {
 		target := rt.Path
 		if rt.HasPath {
 			target = fmt.Sprintf(rt.Path, cl.PathA)
+			if cl.PathB != "" {
+				target = fmt.Sprintf(rt.Path, cl.PathA, cl.PathB)
+			}
 		}
 		body := ""
 		q := url.Values{}
@@ -153,6 +164,9 @@ func c17mk(rt c17route, kind, id string, i int, rnd func() int64) c17call {
 				// path_a is repeated in the body: a JSON body that does not mention a path-bound field
 				// wipes it (recorded under C02, mechanism body-bind-resets-url-fields)
 				body = fmt.Sprintf(`{"id":%q,"payload":%q,"n":"%d","pathA":%q}`, cl.ID, cl.Payload, cl.N, cl.PathA)
+				if cl.PathB != "" {
+					body = fmt.Sprintf(`{"id":%q,"payload":%q,"n":"%d","pathA":%q,"pathB":%q}`, cl.ID, cl.Payload, cl.N, cl.PathA, cl.PathB)
+				}
 			}
 		}
 		if kind == "raw-bad" {
@@ -416,6 +430,9 @@ func c17msg(reg interface {
 	if cl.PathA != "" {
 		m.Set(md.Fields().ByName("path_a"), protoreflect.ValueOfString(cl.PathA))
 	}
+	if cl.PathB != "" {
+		m.Set(md.Fields().ByName("path_b"), protoreflect.ValueOfString(cl.PathB))
+	}
 	return wire(m)
 }
 
@@ -466,6 +483,9 @@ func c17run(bin, raceLog string, gmp, par int, pkg string, calls []c17call, reg 
 		setEcho := func(m *dynamicpb.Message) {
 			fs := respMD.Fields()
 			o.Echo = fmt.Sprintf("%s|%s|%d|%s", m.Get(fs.ByName("id")).String(), m.Get(fs.ByName("payload")).String(), m.Get(fs.ByName("n")).Int(), m.Get(fs.ByName("path_a")).String())
+			if pb := m.Get(fs.ByName("path_b")).String(); pb != "" {
+				o.Echo += "~" + pb
+			}
 			o.Seen = m.Get(fs.ByName("lab_seen_headers")).String()
 		}
 		switch {
@@ -545,6 +565,9 @@ func c17check(c *Ctx, caseID string, calls []c17call, burst, seq []c17outcome, p
 		}
 		if b.Class == "ok" {
 			wantEcho := fmt.Sprintf("%s|%s|%d|%s", cl.ID, cl.Payload, cl.N, cl.PathA)
+			if cl.PathB != "" {
+				wantEcho += "~" + cl.PathB
+			}
 			if b.Echo != wantEcho {
 				c.R.Violate(caseID, "result-not-function-of-request", cl.Kind, rp(i, map[string]any{"expected_echo": wantEcho}))
 			}
@@ -623,6 +646,9 @@ func c17check(c *Ctx, caseID string, calls []c17call, burst, seq []c17outcome, p
 		want := cl.Want + "//"
 		if cl.Want == "ok" {
 			want = "ok/" + fmt.Sprintf("%s|%s|%d|%s", cl.ID, cl.Payload, cl.N, cl.PathA)
+			if cl.PathB != "" {
+				want += "~" + cl.PathB
+			}
 		}
 		got := burst[i].Class + "/" + burst[i].Echo
 		if burst[i].Class != "ok" {
